@@ -14,11 +14,11 @@ assign to them or call methods on them, and the fields of the property's struct 
 a pure function of the arguments and of these fields; a new variable, writer or field is state the
 model does not know of. The digest-valued `shape:` entry covers everything the call graph
 (resolved by go/types) reaches from the functions declared in the property's anchor files: per
-function, method (with receiver kind), package variable and constant, its numeric literals, the
+function, method (with receiver kind), package variable and constant, its numeric literals, its comparison operators, the
 package variables it reads and its writes through parameters or the receiver (including in-place
 `sort.*`/`copy`/`append`). The entries behind the digest are in `shape_expected.txt` and in a
 comment of the generated file. -/
-def stateC06 : List (String × String) := [("globals:stats", "ErrMismatchedSamples ErrSampleSize ErrSamplesEqual ErrZeroVariance MannWhitneyExactLimit MannWhitneyTiesExactLimit StdNormal _KDEBoundaryMethod_index _KDEKernel_index _LocationHypothesis_index inf nan quantileCIApproxThreshold"), ("globals:mathx", "nan smallFact"), ("globalwrites:stats", "MannWhitneyUTest:StdNormal.CDF"), ("globalwrites:mathx", ""), ("fields:stats.BinomialDist", "N:int P:float64"), ("fields:stats.HypergeometicDist", "N:int K:int Draws:int"), ("shape:C06", "n=28 fnv64a=0abed608c5e84f28")]
+def stateC06 : List (String × String) := [("globals:stats", "ErrMismatchedSamples ErrSampleSize ErrSamplesEqual ErrZeroVariance MannWhitneyExactLimit MannWhitneyTiesExactLimit StdNormal _KDEBoundaryMethod_index _KDEKernel_index _LocationHypothesis_index inf nan quantileCIApproxThreshold"), ("globals:mathx", "nan smallFact"), ("globalwrites:stats", "MannWhitneyUTest:StdNormal.CDF"), ("globalwrites:mathx", ""), ("fields:stats.BinomialDist", "N:int P:float64"), ("fields:stats.HypergeometicDist", "N:int K:int Draws:int"), ("shape:C06", "n=28 fnv64a=f837ac788299de49")]
 
 /-- the source has exactly the package-level variables, writers and struct fields the model accounts for -/
 theorem state_C06 : holdsAll stateC06 = true := by decide +kernel
